@@ -193,6 +193,11 @@ where
     });
     let mut total = BfsStats::default();
     let mut min_completed: Option<usize> = None;
+    let n_items = results.len();
+    let done = results.iter().filter(|r| !r.stats.capped).count();
+    if done < n_items {
+        ctx.note(format!("wall cap hit: {done} of {n_items} work items were explored to fixpoint (in item order); the others are partial or untouched"));
+    }
     for r in results {
         total.states += r.stats.states;
         total.transitions += r.stats.transitions;
